@@ -220,6 +220,18 @@ def rule_a8_pairing(ctx):
             ok = True
         elif prim and others:
             raise AnalysisError('definite-form override under `%s` not understood' % others[0])
+    # the same decision kept in a list of length modes, one per tag, walked in step with the tags (`zip(superTags, modes)`):
+    # `modes[0] = True` where the contents are known to be primitive
+    for n in ecfg.stmt_nodes():
+        a_ = n.ast
+        if n.kind == 'stmt' and isinstance(a_, ast.Assign) and len(a_.targets) == 1 and isinstance(a_.targets[0], ast.Subscript) and \
+                isinstance(a_.targets[0].value, ast.Name) and isinstance(a_.targets[0].slice, ast.Constant) and a_.targets[0].slice.value == 0 and \
+                isinstance(a_.value, ast.Constant) and a_.value.value is True:
+            lst = a_.targets[0].value.id
+            zipped = any(isinstance(lp, ast.For) and isinstance(lp.iter, ast.Call) and norm(lp.iter.func) == 'zip' and
+                         any(isinstance(x, ast.Name) and x.id == lst for x in lp.iter.args) for lp in walk_own(enc.node))
+            if zipped and known_at(ecfg, n, 'isConstructed', False, erd):
+                ok = True
     ctx.ob('A8.pair', enc, 'primitive contents force the definite form at the base tag', ok,
            'found: %s' % ok if ok else 'no `defModeOverride = True` under `not isConstructed`: a primitive value would get an indefinite '
            'header in indefinite mode')
@@ -580,8 +592,14 @@ def rule_c13(ctx):
     # ---- model facts used by the evaluator
     add = TS.method('__add__')
     radd = TS.method('__radd__')
-    ok = 'self.__superTags + (superTag,)' in norm(add.node) and '(superTag,) + self.__superTags' in norm(radd.node) \
-        and 'self.__baseTag' in norm(add.node) and 'self.__baseTag' in norm(radd.node)
+    def built(m):
+        # the argument list of the `self.__class__(...)` the operator returns (star-args flattened by the loader)
+        for r in walk_own(m.node):
+            if isinstance(r, ast.Return) and isinstance(r.value, ast.Call) and norm(r.value.func) == 'self.__class__' and not r.value.keywords:
+                return [('*' + norm(a.value)) if isinstance(a, ast.Starred) else norm(a) for a in r.value.args]
+        return None
+    pa, pr = add.params()[1], radd.params()[1]
+    ok = built(add) == ['self.__baseTag', '*self.__superTags', pa] and built(radd) == ['self.__baseTag', pr, '*self.__superTags']
     ctx.ob('C13.model', add, '`+` appends (outermost last), reflected `+` prepends, base tag kept', ok, '')
     gi = TS.method('__getitem__')
     ok = 'self.__class__(self.__baseTag, *self.__superTags[i])' in norm(gi.node) and 'self.__superTags[i]' in norm(gi.node)
@@ -601,7 +619,25 @@ def rule_c13(ctx):
                ok and built, 'routes=%s built-from-initializers=%s' % (ok, built))
     # ---- encoder: one header per super tag, base first, prepended
     f = ctx.func('codec.ber.encoder.AbstractItemEncoder.encode')
-    loops = [n for n in walk_own(f.node) if isinstance(n, ast.For) and norm(n.iter) in ('enumerate(tagSet.superTags)', 'tagSet.superTags')]
+    aliases = set(['tagSet.superTags'])
+    for a_ in walk_own(f.node):
+        if isinstance(a_, ast.Assign) and len(a_.targets) == 1 and isinstance(a_.targets[0], ast.Name) and norm(a_.value) == 'tagSet.superTags':
+            aliases.add(a_.targets[0].id)
+
+    def tag_var(lp_):
+        # the loop variable that walks the super tags: `for t in S`, `for i, t in enumerate(S)`, `for t, m in zip(S, M)`
+        it = lp_.iter
+        if norm(it) in aliases:
+            return lp_.target
+        if isinstance(it, ast.Call) and norm(it.func) == 'enumerate' and it.args and norm(it.args[0]) in aliases and \
+                isinstance(lp_.target, ast.Tuple) and len(lp_.target.elts) == 2:
+            return lp_.target.elts[1]
+        if isinstance(it, ast.Call) and norm(it.func) == 'zip' and isinstance(lp_.target, ast.Tuple) and len(lp_.target.elts) == len(it.args):
+            for k_, x_ in enumerate(it.args):
+                if norm(x_) in aliases:
+                    return lp_.target.elts[k_]
+        return None
+    loops = [n for n in walk_own(f.node) if isinstance(n, ast.For) and tag_var(n) is not None]
     ok = len(loops) == 1
     det = 'loop over the super tags: %d' % len(loops)
     if ok:
@@ -612,7 +648,7 @@ def rule_c13(ctx):
                and 'header' in norm(s.value.left)]
         top = [s for s in lp.body if any(c in ast.walk(s) for c in ets)]
         ok = len(ets) == 1 and len(pre) >= 1 and len(top) == 1 and not isinstance(top[0], (ast.If, ast.For, ast.While)) \
-            and norm(ets[0].args[0]) == norm(lp.target.elts[1] if isinstance(lp.target, ast.Tuple) else lp.target)
+            and norm(ets[0].args[0]) == norm(tag_var(lp))
         if ok:
             # every path from the identifier to the next iteration prepends the header (however the arms are arranged)
             cfg = ctx.cfg(f)
